@@ -373,56 +373,7 @@ func runC12(c *Ctx, r *Report) {
 		if control == 0 {
 			r.Undecided("C12.R6 control: the detector finds no float->integer conversion anywhere in the module (int(), round() are expected to have some)")
 		}
-		two63 := constant.MakeFloat64(9223372036854775808.0)
-		n := 0
-		for _, fn := range sortedFuncs(scope) {
-			eachInstr(fn, func(in ssa.Instruction) {
-				cv, ok := isF2I(in)
-				if !ok {
-					return
-				}
-				n++
-				upper, lower := false, false
-				for _, cc := range controlling(cv.Block()) {
-					bin, ok := cc.Cond.(*ssa.BinOp)
-					if !ok {
-						continue
-					}
-					op, x, y := bin.Op, bin.X, bin.Y
-					if kx, isK := x.(*ssa.Const); isK && kx.Value != nil { // const OP v  ->  v OP' const
-						x, y = y, x
-						op = map[token.Token]token.Token{token.LSS: token.GTR, token.LEQ: token.GEQ, token.GTR: token.LSS, token.GEQ: token.LEQ}[op]
-					}
-					k, isK := y.(*ssa.Const)
-					if !isK || k.Value == nil || x != cv.X {
-						continue
-					}
-					if cc.Edge == 1 { // condition false
-						op = map[token.Token]token.Token{token.LSS: token.GEQ, token.LEQ: token.GTR, token.GTR: token.LEQ, token.GEQ: token.LSS}[op]
-					}
-					kv := constant.ToFloat(k.Value)
-					if kv.Kind() != constant.Float && kv.Kind() != constant.Int {
-						continue
-					}
-					switch op {
-					case token.LSS:
-						if constant.Compare(kv, token.LEQ, two63) {
-							upper = true
-						}
-					case token.LEQ:
-						if constant.Compare(kv, token.LSS, two63) {
-							upper = true
-						}
-					case token.GEQ, token.GTR:
-						if constant.Compare(kv, token.GEQ, constant.UnaryOp(token.SUB, two63, 0)) {
-							lower = true
-						}
-					}
-				}
-				r.Check(upper && lower, "C12.R6", ssaFuncName(fn), fmt.Sprintf("float -> integer conversion #%d is guarded by -2^63 <= f < 2^63", n), c.Pos(cv.Pos()),
-					fmt.Sprintf("the converted float is not confined to the representable range on this path (lower bound %v, strict upper bound %v; note float64(math.MaxInt64) is 2^63, so `f <= math.MaxInt64` admits 2^63): the conversion overflows and one value sorts on the wrong side of every integer", lower, upper))
-			})
-		}
+		n := c.checkFloatToIntGuards(r, "C12.R6", sortedFuncs(scope), "the conversion overflows and one value sorts on the wrong side of every integer")
 		r.Note("C12.R6: %d float->integer conversions inside the comparator (%d in the module)", n, control)
 	}
 	// Value() applied to both operands first
@@ -1015,4 +966,72 @@ func (c *Ctx) sameArgOrigin(a ssa.Value, want ssa.Value, call *ssa.Call) bool {
 		}
 	}
 	return true
+}
+
+// checkFloatToIntGuards: every float -> integer conversion in fns is dominated by -2^63 <= f < 2^63 (strict upper
+// bound: float64(math.MaxInt64) is 2^63). Returns the number of conversions found.
+func (c *Ctx) checkFloatToIntGuards(r *Report, rule string, fns []*ssa.Function, consequence string) int {
+	isF2I := func(in ssa.Instruction) (*ssa.Convert, bool) {
+		cv, ok := in.(*ssa.Convert)
+		if !ok {
+			return nil, false
+		}
+		from, ok1 := cv.X.Type().Underlying().(*types.Basic)
+		to, ok2 := cv.Type().Underlying().(*types.Basic)
+		if !ok1 || !ok2 || from.Info()&types.IsFloat == 0 || to.Info()&types.IsInteger == 0 {
+			return nil, false
+		}
+		return cv, true
+	}
+	two63 := constant.MakeFloat64(9223372036854775808.0)
+	n := 0
+	for _, fn := range fns {
+		eachInstr(fn, func(in ssa.Instruction) {
+			cv, ok := isF2I(in)
+			if !ok {
+				return
+			}
+			n++
+			upper, lower := false, false
+			for _, cc := range controlling(cv.Block()) {
+				bin, ok := cc.Cond.(*ssa.BinOp)
+				if !ok {
+					continue
+				}
+				op, x, y := bin.Op, bin.X, bin.Y
+				if kx, isK := x.(*ssa.Const); isK && kx.Value != nil { // const OP v  ->  v OP' const
+					x, y = y, x
+					op = map[token.Token]token.Token{token.LSS: token.GTR, token.LEQ: token.GEQ, token.GTR: token.LSS, token.GEQ: token.LEQ}[op]
+				}
+				k, isK := y.(*ssa.Const)
+				if !isK || k.Value == nil || x != cv.X {
+					continue
+				}
+				if cc.Edge == 1 { // condition false
+					op = map[token.Token]token.Token{token.LSS: token.GEQ, token.LEQ: token.GTR, token.GTR: token.LEQ, token.GEQ: token.LSS}[op]
+				}
+				kv := constant.ToFloat(k.Value)
+				if kv.Kind() != constant.Float && kv.Kind() != constant.Int {
+					continue
+				}
+				switch op {
+				case token.LSS:
+					if constant.Compare(kv, token.LEQ, two63) {
+						upper = true
+					}
+				case token.LEQ:
+					if constant.Compare(kv, token.LSS, two63) {
+						upper = true
+					}
+				case token.GEQ, token.GTR:
+					if constant.Compare(kv, token.GEQ, constant.UnaryOp(token.SUB, two63, 0)) {
+						lower = true
+					}
+				}
+			}
+			r.Check(upper && lower, rule, ssaFuncName(fn), fmt.Sprintf("float -> integer conversion #%d is guarded by -2^63 <= f < 2^63", n), c.Pos(cv.Pos()),
+				fmt.Sprintf("the converted float is not confined to the representable range on this path (lower bound %v, strict upper bound %v; note float64(math.MaxInt64) is 2^63, so `f <= math.MaxInt64` admits 2^63): "+consequence, lower, upper))
+		})
+	}
+	return n
 }
